@@ -609,7 +609,25 @@ func runSchemaHistories(t *testing.T, id, rule string, quick, thorough int) {
 				if x.AccMeta != nil {
 					am = map[string]metadata.Metadata{x.Dst[0]: toMD(x.AccMeta)}
 				}
-				_, res, _, err := l.C.CreateTransaction(w.Ctx, ledgercontroller.Parameters[ledgercontroller.CreateTransaction]{SchemaVersion: x.Version, Input: ledgercontroller.CreateTransaction{RunScript: run, AccountMetadata: am}})
+				params := ledgercontroller.Parameters[ledgercontroller.CreateTransaction]{SchemaVersion: x.Version, Input: ledgercontroller.CreateTransaction{RunScript: run, AccountMetadata: am}}
+				var res *ledger.CreatedTransaction
+				var err error
+				if rapid.IntRange(0, 2).Draw(rt, "insideATransaction") == 0 {
+					// the way an atomic bulk sends its elements: through a controller derived for one SQL transaction
+					st.Class("create-through-a-derived-controller")
+					txc, _, berr := l.C.BeginTX(w.Ctx, nil)
+					if berr != nil {
+						w.harness("BeginTX: %v", berr)
+					}
+					_, res, _, err = txc.CreateTransaction(w.Ctx, params)
+					if err == nil {
+						err = txc.Commit(w.Ctx)
+					} else {
+						_ = txc.Rollback(w.Ctx)
+					}
+				} else {
+					_, res, _, err = l.C.CreateTransaction(w.Ctx, params)
+				}
 				out = err
 				if wantReject == "" {
 					switch {
